@@ -571,8 +571,48 @@ func runReenc(c *h.Ctx, rc ReencCase) {
 			decs = append(decs, dec{"invocation.FromSealedReader/" + sc.name, func() (cid.Cid, error) { _, c, err := invocation.FromSealedReader(sc.mk()); return c, err }})
 		}
 	}
+	// the same bytes arriving inside a container, filed there under the CID of the bytes themselves
+	for _, car := range []bool{false, true} {
+		car := car
+		name := "container.FromCbor"
+		if car {
+			name = "container.FromCar"
+		}
+		decs = append(decs, dec{name, func() (cid.Cid, error) {
+			sum := sha256.Sum256(variant)
+			vc := cid.NewCidV1(cid.DagCBOR, append([]byte{0x12, 0x20}, sum[:]...))
+			w := container.NewWriter()
+			w.AddSealed(vc, variant)
+			var rd container.Reader
+			var err error
+			if car {
+				var b []byte
+				if b, err = w.ToCar(); err == nil {
+					rd, err = container.FromCar(b)
+				}
+			} else {
+				var b []byte
+				if b, err = w.ToCbor(); err == nil {
+					rd, err = container.FromCbor(b)
+				}
+			}
+			if err != nil {
+				return cid.Undef, err
+			}
+			for k := range rd {
+				return k, nil
+			}
+			return cid.Undef, errors.New("empty container")
+		}})
+	}
 	accepted := 0
+	// every entry point is asked THREE times: what a decoder answers about a byte string does not depend on whether it,
+	// or another entry point, has seen that byte string before
+	for pass := 0; pass < 3; pass++ {
 	for _, dc := range decs {
+		if pass > 0 {
+			c.P.Class("presented-again")
+		}
 		var got cid.Cid
 		var derr error
 		if pn, pv, _ := h.Try(func() { got, derr = dc.f() }); pn {
@@ -597,9 +637,10 @@ func runReenc(c *h.Ctx, rc ReencCase) {
 			if isSig {
 				sig = "C08/sigmalleable/" + rc.Kind + "/" + string(alg)
 			}
-			c.Fail(sig, "%s accepts a second byte string for the same signed content under another CID: kind=%s item=%d alg=%s\n original %x -> %s\n variant  %x -> %s",
-				dc.name, rc.Kind, rc.Item, alg, sealed, id, variant, got)
+			c.Fail(sig, "%s (presentation %d) accepts a second byte string for the same signed content under another CID: kind=%s item=%d alg=%s\n original %x -> %s\n variant  %x -> %s",
+				dc.name, pass+1, rc.Kind, rc.Item, alg, sealed, id, variant, got)
 		}
+	}
 	}
 	// the LENIENT decoders (FromDagCbor takes any DAG-CBOR spelling) may accept the variant; what they return is the
 	// token, not its spelling: sealed again by the issuer it gives canonical bytes - for a deterministic scheme the
